@@ -42,6 +42,7 @@ type Step struct {
 	Replica int       `json:"replica,omitempty"`
 	Acts    []SiteAct `json:"acts,omitempty"`
 	Note    string    `json:"note,omitempty"`
+	Join    *ReplicaConf `json:"join,omitempty"` // kind "join": a new replica that syncs from genesis (late joiner)
 }
 
 // ReplicaConf is the JSON form of a ReplicaSpec.
@@ -290,6 +291,29 @@ func (e *Engine) DoRestart(st *Step) error {
 	err := e.C.StartReplica(r)
 	if _, ok := err.(SimCrash); ok {
 		return nil // crashed again during catch-up; a later restart step may revive it
+	}
+	return err
+}
+
+// DoJoin adds a replica mid-run: it boots from genesis and is fed the whole canonical chain.
+func (e *Engine) DoJoin(st *Step) error {
+	if !e.Replay {
+		e.Trace.Steps = append(e.Trace.Steps, st)
+	}
+	if st.Join == nil {
+		return nil
+	}
+	e.begin(st, e.C.Height())
+	defer func() { e.cur = nil }()
+	e.Stats.Faults["late_join"]++
+	rc := st.Join
+	spec := ReplicaSpec{
+		Keys: e.W.IdentityKeys(rc.Identity), WitnessInitEarly: rc.WitnessInitEarly, Quiet: rc.Quiet,
+		Rotation: config.ChainStateRotationCfg{Recent: rc.Recent, Every: rc.Every, Cycles: rc.Cycles},
+	}
+	_, err := e.C.AddReplica(spec)
+	if _, ok := err.(SimCrash); ok {
+		return nil
 	}
 	return err
 }
